@@ -55,8 +55,10 @@ class Outcome:
                  "wall_s": round(res.wall, 1), "what": what}
         if expect_violation:
             entry["negative_config"] = True
-            entry["counterexample_found"] = res.violated == expect_violation
-            if res.violated != expect_violation:
+            expected = expect_violation if isinstance(expect_violation, (tuple, list, set)) else (expect_violation,)
+            entry["counterexample_found"] = res.violated in expected
+            entry["violated"] = res.violated
+            if res.violated not in expected:
                 raise MachineryFailure(f"negative configuration {name} did not produce the expected counterexample "
                                        f"of {expect_violation} (got {res.violated})")
         else:
